@@ -395,6 +395,21 @@ func (r *runner) deliver(h int64, i int, raw []byte, kind, tag string) (*violati
 			if df := diffSnap(before, after); len(df) > 0 {
 				return &violation{"rejected-changes-state", tag, fmt.Sprintf("%s: rejected (code %d, log %q) but %d records of the block state changed: %q", where, d.Code, d.Log, len(df), df)}, d
 			}
+			// ... and only a transaction that failed a pre-check may be refused. (a) a response that reports gas used reports
+			// an execution; (b) a transaction the generator built without any pre-check defect, whose nonce is the account's
+			// next one and whose sender can pay gas limit x price + value, passes every consensus pre-check there is (nonce,
+			// balance, intrinsic gas are checked here from the state before the transaction) and has to be executed: charged
+			// for its gas, nonce raised, whether the EVM run succeeded, reverted or ran out of gas.
+			if d.GasUsed > 0 {
+				return &violation{"executed-not-charged", tag, fmt.Sprintf("%s: answered code %d with gas used %d (an execution), yet sender, fee pool and nonce are unchanged (log %q)", where, d.Code, d.GasUsed, d.Log)}, d
+			}
+			if failClass(tag) == "none" && o.nonce == preNonce {
+				need := new(big.Int).Add(new(big.Int).Mul(big.NewInt(o.gas), o.price), o.value)
+				intrinsic, ierr := vm.IntrinsicGas(o.data, nil, o.to == nil)
+				if ierr == nil && preSender.Cmp(need) >= 0 && uint64(o.gas) >= intrinsic && o.price.Cmp(big.NewInt(1000000000)) == 0 {
+					return &violation{"valid-not-executed", tag, fmt.Sprintf("%s: passes every consensus pre-check (nonce %d = account nonce, balance %s >= gas %d x price %s + value %s, intrinsic gas %d) but was refused with code %d (log %q) and nothing was charged", where, o.nonce, preSender, o.gas, o.price, o.value, intrinsic, d.Code, d.Log)}, d
+				}
+			}
 		} else {
 			status, _ := eventValue(d, "tx.status")
 			errTxt, _ := eventValue(d, "tx.error")
